@@ -13,24 +13,28 @@
 (***************************************************************************)
 EXTENDS Naturals, Sequences, FiniteSets, TLC, Json, IOUtils, TLCExt
 Traces == JsonDeserialize(IOEnv.TRACE_FILE)
-VARIABLES tid, l, patches, verdict
-vars == <<tid, l, patches, verdict>>
+VARIABLES tid, l, patches, handled, verdict
+vars == <<tid, l, patches, handled, verdict>>
 T == Traces[tid].events
 E == T[l]
 Tmo == Traces[tid].timeout
-Init == tid \in 1..Len(Traces) /\ l = 1 /\ patches = {} /\ verdict = "ok"
+Init == tid \in 1..Len(Traces) /\ l = 1 /\ patches = {} /\ handled = FALSE /\ verdict = "ok"
 Bad(v) == verdict' = IF verdict = "ok" THEN v ELSE verdict
 Alone(i) == \A j \in DOMAIN T : (j # i /\ T[j].ev = "line") => T[j].t # T[i].t
 SeenAt(i) == \E j \in DOMAIN T : T[j].ev = "winv" /\ T[j].rv = T[i].rv /\ T[j].t = T[i].t
 Step ==
   /\ l <= Len(T) /\ l' = l + 1 /\ UNCHANGED tid
   /\ CASE E.ev = "patch" -> patches' = patches \cup {<<E.t, E.rv>>} /\ UNCHANGED verdict
-       [] E.ev = "inv" -> /\ UNCHANGED patches
+                             /\ handled' = (handled \/ ("lh" \in DOMAIN E /\ E.lh))      \* the last-handled state is on the object from now on
+       [] E.ev = "inv" -> /\ UNCHANGED <<patches, handled>>
                           /\ IF \E p \in patches : p[2] > E.rv /\ E.t < p[1] + Tmo
-                             THEN Bad("change_handler_on_a_view_older_than_the_own_patch") ELSE UNCHANGED verdict
-       [] E.ev = "line" -> /\ UNCHANGED patches
+                             THEN Bad("change_handler_on_a_view_older_than_the_own_patch")
+                             \* (C05) creation is for objects that were never handled before
+                             ELSE IF handled /\ "reason" \in DOMAIN E /\ E.reason = "create" THEN Bad("creation_handler_on_an_object_that_was_handled_before")
+                             ELSE UNCHANGED verdict
+       [] E.ev = "line" -> /\ UNCHANGED <<patches, handled>>
                            /\ IF E.idle /\ Alone(l) /\ ~SeenAt(l) THEN Bad("raw_event_handler_was_delayed") ELSE UNCHANGED verdict
-       [] OTHER -> UNCHANGED <<patches, verdict>>
+       [] OTHER -> UNCHANGED <<patches, handled, verdict>>
 Spec == Init /\ [][Step]_vars
 Book == IF l = Len(T) + 1 THEN TLCSet(1, [TLCGet(1) EXCEPT ![tid] = verdict]) ELSE TRUE
 ASSUME TLCSet(1, [i \in 1..Len(Traces) |-> "incomplete"])
